@@ -178,15 +178,22 @@ def r1(ctx):
     ctx.floor("C15.R1", n, 8, "Token.update call sites in tokenize()")
     up = P.method("formulaic.parser.types.token.Token", "update")
     pn = param_names(up.node)
-    ok, why = contains(P, up, f"""
-        def update(self, {pn[1]}, {pn[2]}, kind=None):
-            self.token += {pn[1]}
-            if self.source_start is None:
-                self.source_start = {pn[2]}
-            self.source_end = {pn[2]}
-            ...
-            return self
-    """)
+    # decided on the path summaries: the three writes touch different attributes, so their order is free
+    try:
+        uo = [o for o in sym.outcomes(up.node) if o.kind in ("return", "fall")]
+    except sym.Unmodelled as e:
+        raise AnalysisError(f"C15.R1: Token.update cannot be summarised: {e}")
+    ok, why = bool(uo), "no returning path"
+    for o in uo:
+        effs = [norm(e) for e in o.effects]
+        unset = [pol for c, pol in o.conds if norm(c) == "self.source_start is None"] + [not pol for c, pol in o.conds if norm(c) == "self.source_start is not None"]
+        want_start = [f"self.source_start = {pn[2]}"] if unset == [True] else []
+        got = {"token": [e for e in effs if e.startswith("self.token ")], "start": [e for e in effs if e.startswith("self.source_start ")],
+               "end": [e for e in effs if e.startswith("self.source_end ")]}
+        good = len(unset) == 1 and got["token"] in ([f"self.token += {pn[1]}"], [f"self.token = self.token + {pn[1]}"]) and got["start"] == want_start \
+            and got["end"] == [f"self.source_end = {pn[2]}"] and o.kind == "return" and o.value is not None and norm(o.value) == "self"
+        if not good:
+            ok, why = False, f"on the path {o.cond_text()} the writes are {got} and the result `{norm(o.value) if o.value is not None else None}`"
     ctx.check(ok, "C15.R1", "Token.update appends exactly the character and records its index as the end (and as the start when unset)", up.where,
               ctx.construct(up, text="update"), f"Token.update: {why}")
     others = [s for s in ast.walk(up.node) if isinstance(s, (ast.Assign, ast.AugAssign)) and any(
